@@ -1,0 +1,242 @@
+//go:build verif
+
+// Contracts for contract-based deductive verification (checked by /verif/govc).
+// This file is comment-only and compiled only with the build tag "verif".
+//
+// This file holds the ASSUMED part of the resource manager's contracts: the lock, the interfaces of
+// the cache, the policy, the controllers, the agent and the NRI stub.  The verified contracts are in
+// verif_contracts_handlers.go (NRI handlers and their helpers), verif_contracts_c05.go (pending-update
+// drain) and verif_contracts_c13.go (reconfiguration).
+
+package resmgr
+
+// ---- the pipeline lock (C15) ---------------------------------------------------------------------
+//
+// m.Lock()/m.Unlock() on a *resmgr compile to calls of the promoted (*sync.RWMutex).Lock/Unlock on
+// &m.RWMutex.  Their assumed contracts live in <verif>/specs/sync.spec (a contract file can only name
+// functions of module packages): ghost `held` = "the pipeline lock is held by this request",
+// Lock: requires !held ensures held; Unlock: requires held ensures !held (so locking twice and unlocking
+// a free lock are obligation failures).  The ghost is read here through the pure function sync.locked().
+//
+// Lock discipline is checked with a monitor: the ghost `unguarded` becomes (and stays) true as soon as a
+// method of cache.Cache, policy.Policy or control.Control is entered while the lock is not held.  Every
+// handler must return with `unguarded` still false.  (A precondition `requires sync.locked()` on the
+// interface methods would say the same, but the engine assumes a failed precondition afterwards, which
+// makes the rest of a handler that really misses the lock vacuous and hides its other defects.)
+// None of the interface methods writes fields of resmgr/nriPlugin or the lock itself.
+
+//@ ghost unguarded bool
+
+// Message dumping only logs (and marshals its arguments to YAML for the debug log).
+//@ assume-contract (*nriPlugin).dump
+//@   modifies nothing
+
+// ---- cache.Cache ------------------------------------------------------------------------------------
+// Lookups may fail: (nil,false) for an unknown id.  Lists have no nil elements.
+// Inserting/removing pods and containers creates no update request (only container.Set* does).
+//@ iface github.com/containers/nri-plugins/pkg/resmgr/cache.Cache.InsertPod
+//@   modifies unguarded, ureq, adj, marks
+//@   ensures unguarded == (old(unguarded) || !sync.locked())
+//@   ensures old(pendOK()) ==> pendOK()
+//@   ensures forall c cache.Container :: ureq[c] != nil ==> ureq[c] == old(ureq)[c]
+//@ iface github.com/containers/nri-plugins/pkg/resmgr/cache.Cache.DeletePod
+//@   modifies unguarded, ureq, adj, marks
+//@   ensures unguarded == (old(unguarded) || !sync.locked())
+//@   ensures old(pendOK()) ==> pendOK()
+//@   ensures forall c cache.Container :: ureq[c] != nil ==> ureq[c] == old(ureq)[c]
+//@ iface github.com/containers/nri-plugins/pkg/resmgr/cache.Cache.LookupPod
+//@   modifies unguarded
+//@   ensures unguarded == (old(unguarded) || !sync.locked())
+//@   ensures result1 <==> result0 != nil
+//@ iface github.com/containers/nri-plugins/pkg/resmgr/cache.Cache.InsertContainer
+//@   modifies unguarded, ureq, adj, marks
+//@   ensures unguarded == (old(unguarded) || !sync.locked())
+//@   ensures old(pendOK()) ==> pendOK()
+//@   ensures forall c cache.Container :: ureq[c] != nil ==> ureq[c] == old(ureq)[c]
+//@   ensures result1 == nil ==> result0 != nil
+//@ iface github.com/containers/nri-plugins/pkg/resmgr/cache.Cache.DeleteContainer
+//@   modifies unguarded, ureq, adj, marks
+//@   ensures unguarded == (old(unguarded) || !sync.locked())
+//@   ensures old(pendOK()) ==> pendOK()
+//@   ensures forall c cache.Container :: ureq[c] != nil ==> ureq[c] == old(ureq)[c]
+//@ iface github.com/containers/nri-plugins/pkg/resmgr/cache.Cache.LookupContainer
+//@   modifies unguarded
+//@   ensures unguarded == (old(unguarded) || !sync.locked())
+//@   ensures result1 <==> result0 != nil
+//@   ensures result1 ==> idOf(result0) == id
+//@ iface github.com/containers/nri-plugins/pkg/resmgr/cache.Cache.GetContainers
+//@   modifies unguarded
+//@   ensures unguarded == (old(unguarded) || !sync.locked())
+//@   ensures forall i int :: 0 <= i && i < len(result) ==> result[i] != nil
+//@ iface github.com/containers/nri-plugins/pkg/resmgr/cache.Cache.GetPendingContainers
+//@   modifies unguarded
+//@   ensures unguarded == (old(unguarded) || !sync.locked())
+//@   # exactly the containers marked pending, each once
+//@   ensures forall i int :: 0 <= i && i < len(result) ==> result[i] != nil && marked(result[i])
+//@   ensures forall i int, j int :: 0 <= i && i < j && j < len(result) ==> result[i] != result[j]
+//@   ensures forall c cache.Container :: marked(c) ==> exists i int :: 0 <= i && i < len(result) && result[i] == c
+//@ iface github.com/containers/nri-plugins/pkg/resmgr/cache.Cache.RefreshPods
+//@   modifies unguarded, ureq, adj, marks
+//@   ensures unguarded == (old(unguarded) || !sync.locked())
+//@   ensures old(pendOK()) ==> pendOK()
+//@   ensures forall c cache.Container :: ureq[c] != nil ==> ureq[c] == old(ureq)[c]
+//@   ensures forall i int :: 0 <= i && i < len(result2) ==> result2[i] != nil
+//@ iface github.com/containers/nri-plugins/pkg/resmgr/cache.Cache.RefreshContainers
+//@   modifies unguarded, ureq, adj, marks
+//@   ensures unguarded == (old(unguarded) || !sync.locked())
+//@   ensures old(pendOK()) ==> pendOK()
+//@   ensures forall c cache.Container :: ureq[c] != nil ==> ureq[c] == old(ureq)[c]
+//@   ensures forall i int :: 0 <= i && i < len(result1) ==> result1[i] != nil
+//@ iface github.com/containers/nri-plugins/pkg/resmgr/cache.Cache.ContainerDirectory
+//@   modifies unguarded
+//@   ensures unguarded == (old(unguarded) || !sync.locked())
+//@ iface github.com/containers/nri-plugins/pkg/resmgr/cache.Cache.ConfigureRDTControl
+//@   modifies unguarded
+//@   ensures unguarded == (old(unguarded) || !sync.locked())
+//@ iface github.com/containers/nri-plugins/pkg/resmgr/cache.Cache.ConfigureBlockIOControl
+//@   modifies unguarded
+//@   ensures unguarded == (old(unguarded) || !sync.locked())
+
+// ---- policy.Policy ----------------------------------------------------------------------------------
+//@ iface github.com/containers/nri-plugins/pkg/resmgr/policy.Policy.ActivePolicy
+//@   modifies unguarded
+//@   ensures unguarded == (old(unguarded) || !sync.locked())
+//@ iface github.com/containers/nri-plugins/pkg/resmgr/policy.Policy.Reconfigure
+//@   modifies unguarded, polN, polCfg, ureq, adj, marks
+//@   ensures unguarded == (old(unguarded) || !sync.locked())
+//@   ensures polN == old(polN) + 1 && polCfg == arg0
+//@   ensures old(pendOK()) ==> pendOK()
+//@ iface github.com/containers/nri-plugins/pkg/resmgr/policy.Policy.Sync
+//@   modifies unguarded, ureq, adj, marks
+//@   ensures unguarded == (old(unguarded) || !sync.locked())
+//@   ensures old(pendOK()) ==> pendOK()
+//@ iface github.com/containers/nri-plugins/pkg/resmgr/policy.Policy.AllocateResources
+//@   modifies unguarded, ureq, adj, marks
+//@   ensures unguarded == (old(unguarded) || !sync.locked())
+//@   ensures old(pendOK()) ==> pendOK()
+//@ iface github.com/containers/nri-plugins/pkg/resmgr/policy.Policy.ReleaseResources
+//@   modifies unguarded, ureq, adj, marks
+//@   ensures unguarded == (old(unguarded) || !sync.locked())
+//@   ensures old(pendOK()) ==> pendOK()
+//@ iface github.com/containers/nri-plugins/pkg/resmgr/policy.Policy.UpdateResources
+//@   modifies unguarded, ureq, adj, marks
+//@   ensures unguarded == (old(unguarded) || !sync.locked())
+//@   ensures old(pendOK()) ==> pendOK()
+//@ iface github.com/containers/nri-plugins/pkg/resmgr/policy.Policy.HandleEvent
+//@   modifies unguarded, ureq, adj, marks
+//@   ensures unguarded == (old(unguarded) || !sync.locked())
+//@   ensures old(pendOK()) ==> pendOK()
+//@ iface github.com/containers/nri-plugins/pkg/resmgr/policy.Policy.ExportResourceData
+//@   modifies unguarded
+//@   ensures unguarded == (old(unguarded) || !sync.locked())
+//@ iface github.com/containers/nri-plugins/pkg/resmgr/policy.Policy.GetTopologyZones
+//@   modifies unguarded
+//@   ensures unguarded == (old(unguarded) || !sync.locked())
+
+// ---- control.Control --------------------------------------------------------------------------------
+//@ iface github.com/containers/nri-plugins/pkg/resmgr/control.Control.StartStopControllers
+//@   modifies unguarded
+//@   ensures unguarded == (old(unguarded) || !sync.locked())
+//@ iface github.com/containers/nri-plugins/pkg/resmgr/control.Control.RunPreCreateHooks
+//@   modifies unguarded
+//@   ensures unguarded == (old(unguarded) || !sync.locked())
+//@ iface github.com/containers/nri-plugins/pkg/resmgr/control.Control.RunPostStartHooks
+//@   modifies unguarded
+//@   ensures unguarded == (old(unguarded) || !sync.locked())
+//@ iface github.com/containers/nri-plugins/pkg/resmgr/control.Control.RunPostUpdateHooks
+//@   modifies unguarded
+//@   ensures unguarded == (old(unguarded) || !sync.locked())
+//@ iface github.com/containers/nri-plugins/pkg/resmgr/control.Control.RunPostStopHooks
+//@   modifies unguarded
+//@   ensures unguarded == (old(unguarded) || !sync.locked())
+
+// ---- cache.Container / cache.Pod: objects handed out by the cache ---------------------------------------
+// (not monitored: these interfaces are also used inside the cache and by the policies)
+//@ iface github.com/containers/nri-plugins/pkg/resmgr/cache.Container.GetID
+//@   ensures result == idOf(self)
+//@ iface github.com/containers/nri-plugins/pkg/resmgr/cache.Container.GetState
+//@ iface github.com/containers/nri-plugins/pkg/resmgr/cache.Container.UpdateState
+//@ iface github.com/containers/nri-plugins/pkg/resmgr/cache.Container.InsertMount
+//@   modifies ureq, adj, marks
+//@   ensures old(pendOK()) ==> pendOK()
+//@ iface github.com/containers/nri-plugins/pkg/resmgr/cache.Container.SetResourceUpdates
+//@ iface github.com/containers/nri-plugins/pkg/resmgr/cache.Container.GetCPUShares
+//@ iface github.com/containers/nri-plugins/pkg/resmgr/cache.Container.SetCPUShares
+//@   modifies ureq, adj, marks
+//@   ensures old(pendOK()) ==> pendOK()
+//@ iface github.com/containers/nri-plugins/pkg/resmgr/cache.Container.GetCPUQuota
+//@ iface github.com/containers/nri-plugins/pkg/resmgr/cache.Container.SetCPUQuota
+//@   modifies ureq, adj, marks
+//@   ensures old(pendOK()) ==> pendOK()
+//@ iface github.com/containers/nri-plugins/pkg/resmgr/cache.Container.GetCPUPeriod
+//@ iface github.com/containers/nri-plugins/pkg/resmgr/cache.Container.SetCPUPeriod
+//@   modifies ureq, adj, marks
+//@   ensures old(pendOK()) ==> pendOK()
+//@ iface github.com/containers/nri-plugins/pkg/resmgr/cache.Container.GetCpusetCpus
+//@ iface github.com/containers/nri-plugins/pkg/resmgr/cache.Container.SetCpusetCpus
+//@   modifies ureq, adj, marks
+//@   ensures old(pendOK()) ==> pendOK()
+//@ iface github.com/containers/nri-plugins/pkg/resmgr/cache.Container.GetCpusetMems
+//@ iface github.com/containers/nri-plugins/pkg/resmgr/cache.Container.SetCpusetMems
+//@   modifies ureq, adj, marks
+//@   ensures old(pendOK()) ==> pendOK()
+//@ iface github.com/containers/nri-plugins/pkg/resmgr/cache.Container.GetMemoryLimit
+//@ iface github.com/containers/nri-plugins/pkg/resmgr/cache.Container.SetMemoryLimit
+//@   modifies ureq, adj, marks
+//@   ensures old(pendOK()) ==> pendOK()
+//@ iface github.com/containers/nri-plugins/pkg/resmgr/cache.Container.GetMemorySwap
+//@ iface github.com/containers/nri-plugins/pkg/resmgr/cache.Container.SetMemorySwap
+//@   modifies ureq, adj, marks
+//@   ensures old(pendOK()) ==> pendOK()
+//@ iface github.com/containers/nri-plugins/pkg/resmgr/cache.Container.GetResourceRequirements
+//@ iface github.com/containers/nri-plugins/pkg/resmgr/cache.Container.GetResourceUpdates
+//@ iface github.com/containers/nri-plugins/pkg/resmgr/cache.Container.GetPendingAdjustment
+//@   modifies ureq, adj
+//@   ensures result == old(adj[self]) && ureq == upd(old(ureq), self, nil) && adj == upd(old(adj), self, nil)
+//@   ensures result != nil ==> aowner(result) == self
+//@ iface github.com/containers/nri-plugins/pkg/resmgr/cache.Container.GetPendingUpdate
+//@   # hands out the pending update (nil if there is none or the pending request is an adjustment) and forgets the request
+//@   modifies ureq, adj
+//@   ensures result == old(ureq[self]) && ureq == upd(old(ureq), self, nil) && adj == upd(old(adj), self, nil)
+//@   ensures result != nil ==> owner(result) == self && result.ContainerId == idOf(self)
+//@ iface github.com/containers/nri-plugins/pkg/resmgr/cache.Container.GetPending
+//@   ensures forall s string :: marks[self][s] <==> (s in result)
+//@ iface github.com/containers/nri-plugins/pkg/resmgr/cache.Container.ClearPending
+//@   modifies marks
+//@   ensures marks == upd(old(marks), self, upd(old(marks[self]), arg0, false))
+//@ iface github.com/containers/nri-plugins/pkg/resmgr/cache.Container.GetRDTClass
+//@ iface github.com/containers/nri-plugins/pkg/resmgr/cache.Container.GetQOSClass
+//@ iface github.com/containers/nri-plugins/pkg/resmgr/cache.Container.GetBlockIOClass
+//@ iface github.com/containers/nri-plugins/pkg/resmgr/cache.Pod.GetContainers
+//@   ensures forall i int :: 0 <= i && i < len(result) ==> result[i] != nil
+//@ iface github.com/containers/nri-plugins/pkg/resmgr/cache.Pod.GetName
+//@ iface github.com/containers/nri-plugins/pkg/resmgr/cache.Pod.GetNamespace
+
+// ---- configuration object, agent, NRI stub -------------------------------------------------------------
+//@ iface github.com/containers/nri-plugins/pkg/apis/config/v1alpha1.ResmgrConfig.CommonConfig
+//@   ensures result != nil
+//@ iface github.com/containers/nri-plugins/pkg/apis/config/v1alpha1.ResmgrConfig.PolicyConfig
+//@   ensures result == polCfgOf(self)
+//@ iface github.com/containers/nri-plugins/pkg/apis/config/v1alpha1.ResmgrConfig.GetObjectMeta
+//@   ensures result != nil
+//@ iface k8s.io/apimachinery/pkg/apis/meta/v1.Object.GetName
+//@ iface github.com/containerd/nri/pkg/stub.Stub.Stop
+// (panics on a malformed event list; the list is a constant here)
+//@ assume-contract github.com/containerd/nri/pkg/api.MustParseEventMask
+//@   modifies nothing
+// unsolicited updates pushed to the runtime: pushN calls so far, the last one with the list `pushed`
+//@ iface github.com/containerd/nri/pkg/stub.Stub.UpdateContainers
+//@   modifies pushN, pushed
+//@   ensures pushN == old(pushN) + 1 && pushed == arg0
+//@ assume-contract github.com/containers/nri-plugins/pkg/agent.(*Agent).GoListPodResources
+//@   requires a != nil
+//@   modifies nothing
+//@ assume-contract github.com/containers/nri-plugins/pkg/agent.(*Agent).GoGetPodResources
+//@   requires a != nil
+//@   modifies nothing
+//@ assume-contract github.com/containers/nri-plugins/pkg/agent.(*Agent).PurgePodResources
+//@   requires a != nil
+//@   modifies nothing
+//@ assume-contract github.com/containers/nri-plugins/pkg/agent.(*Agent).UpdateNrtCR
+//@   requires a != nil
+//@   modifies nothing
